@@ -197,6 +197,16 @@ class Builder:
                     terms.append(md.NOT(regions[j]))
                 else:
                     terms.append(gen.push_not(regions[j], True))
+            if self.opts.get('empty_pieces') and self.deck['surfaces'] \
+                    and d(st.integers(0, 5)) == 0:
+                s0 = d(st.sampled_from(self.deck['surfaces']))['id']
+                if d(st.booleans()):
+                    # the whole filler cell is patently empty
+                    terms += [md.S(s0), md.S(-s0)]
+                    self.labels.add('patently-empty-cell')
+                else:
+                    terms[0] = md.OR(terms[0], md.AND(md.S(s0), md.S(-s0)))
+                    self.labels.add('patently-empty-piece')
             expr = terms[0] if len(terms) == 1 else md.AND(*terms)
             self.make_cell(cids[i], expr, u, depth, scale)
         return u
@@ -610,5 +620,163 @@ def hex_case(draw, tier='quick', periodic=False):
     b.deck['cells'].append(cont)
     b.deck['cells'].append(md.cell(b.new_cid(), 0, None, md.S(world),
                                    imp={'n': 0}))
+    return {'deck': b.deck, 'labels': sorted(b.labels), 'tier': tier,
+            'box': W * 1.15, 'pseed': draw(st.integers(0, 2 ** 31 - 1))}
+
+
+# --------------------------------------------------------------------------
+# post-processing of a generated deck: duplicates, unused and flagged surfaces
+# --------------------------------------------------------------------------
+
+def _map_leaves(expr, fn):
+    op = expr[0]
+    if op == 's':
+        return md.S(fn(expr[1]))
+    if op == 'f':
+        return md.F(fn(expr[1]), expr[2])
+    if op == '#':
+        return expr
+    return [op] + [_map_leaves(k, fn) for k in expr[1:]]
+
+
+def used_surface_ids(deck):
+    used = set()
+
+    def walk(expr):
+        if expr[0] in ('s', 'f'):
+            used.add(abs(expr[1]))
+        elif expr[0] != '#':
+            for k in expr[1:]:
+                walk(k)
+    for c in deck['cells']:
+        if c.get('like') is None:
+            walk(c['expr'])
+    return used
+
+
+@st.composite
+def decorate(draw, case, dup=True, unused=True, bc=False, small_ids=True):
+    """Add duplicate surfaces (same card under another id, references
+    re-pointed at random), unused surfaces and boundary-condition flags."""
+    deck = case['deck']
+    labels = set(case['labels'])
+    ids = [s['id'] for s in deck['surfaces']]
+    free_small = [i for i in range(1, max(ids) + 1) if i not in ids]
+    next_id = max(ids)
+    lat_ids = set()
+    for c in deck['cells']:
+        if c.get('lat'):
+            lat_ids |= used_surface_ids({'cells': [c]})
+    if dup and draw(st.integers(0, 2)) != 0:
+        n = draw(st.integers(1, 3))
+        for _ in range(n):
+            src = draw(st.sampled_from(deck['surfaces']))
+            if src['id'] in lat_ids:
+                continue
+            if small_ids and free_small and draw(st.booleans()):
+                new_id = free_small.pop(draw(st.integers(0, len(free_small) - 1)))
+                labels.add('dup-surface:smaller-id')
+            else:
+                next_id += draw(st.integers(1, 5))
+                new_id = next_id
+                labels.add('dup-surface:larger-id')
+            cp = dict(src)
+            cp['id'] = new_id
+            cp['bc'] = ''
+            deck['surfaces'].append(cp)
+            sid = src['id']
+            coin = [draw(st.booleans()) for _ in range(8)]
+            state = {'k': 0}
+
+            def fn(n_, sid=sid, new_id=new_id, coin=coin, state=state):
+                if abs(n_) != sid:
+                    return n_
+                state['k'] += 1
+                if coin[state['k'] % len(coin)]:
+                    return new_id if n_ > 0 else -new_id
+                return n_
+            for c in deck['cells']:
+                if c.get('like') is None and not c.get('lat'):
+                    c['expr'] = _map_leaves(c['expr'], fn)
+    if unused and draw(st.integers(0, 2)) == 0:
+        for _ in range(draw(st.integers(1, 2))):
+            next_id += draw(st.integers(1, 5))
+            k, p, _l = draw(gen.elementary_params(
+                draw(st.sampled_from(['px', 'so', 'c/z', 'p', 'kz']))))
+            deck['surfaces'].append(md.surf(next_id, k, p))
+            labels.add('unused-surface')
+    if bc:
+        from . import mgeom
+        cands = [s for s in deck['surfaces']
+                 if s['kind'].lower() not in mgeom.MACRO_KINDS]
+        for s in cands:
+            if draw(st.integers(0, 3)) == 0:
+                s['bc'] = draw(st.sampled_from(['*', '+']))
+                labels.add('bc:' + s['bc'])
+    deck['surfaces'].sort(key=lambda s: s['id'])
+    out = dict(case)
+    out['labels'] = sorted(labels)
+    return out
+
+
+@st.composite
+def prune_case(draw, tier='quick'):
+    """Decks biased toward pruning interactions (C08): containers without a
+    fill transformation whose fillers contain patently empty cells, unions of
+    empty pieces and cells that are empty only inside their container."""
+    b = Builder(draw, tier, {'lattice': False})
+    d = draw
+    W = 5.0
+    world = b.add_surf('so', [W])
+    cut = b.add_surf('px', [d(st.integers(-10, 10)) / 10.0])
+    u = b.new_uid()
+    plain = [b.add_surf('p' + d(st.sampled_from('xyz')),
+                        [d(st.integers(-15, 15)) / 10.0])
+             for _ in range(d(st.integers(1, 3)))]
+    plain.append(b.add_surf('so', [d(gen.length(0.5, 2.0))]))
+    n = d(st.integers(2, 4))
+    cids = [b.new_cid() for _ in range(n + 1)]
+    regions = []
+    for i in range(n):
+        kind = d(st.sampled_from(['empty', 'union-of-empties', 'empty-or-region',
+                                  'region', 'region', 'far']))
+        s0 = d(st.sampled_from(plain))
+        s1 = d(st.sampled_from(plain))
+        reg = md.S(d(st.sampled_from([1, -1])) * d(st.sampled_from(plain)))
+        if kind == 'empty':
+            regions.append(md.AND(md.S(s0), md.S(-s0)))
+            b.labels.add('patently-empty-cell')
+        elif kind == 'union-of-empties':
+            regions.append(md.OR(md.AND(md.S(s0), md.S(-s0)),
+                                 md.AND(md.S(-s1), md.S(s1))))
+            b.labels.add('union-of-empties')
+        elif kind == 'empty-or-region':
+            regions.append(md.OR(md.AND(md.S(s0), md.S(-s0)), reg))
+            b.labels.add('patently-empty-piece')
+        elif kind == 'far':
+            far = b.add_surf('s', [30.0, 0.0, 0.0, 1.0])
+            regions.append(md.S(-far))
+            b.labels.add('empty-inside-container')
+        else:
+            regions.append(reg)
+    for i in range(n + 1):
+        terms = [regions[i]] if i < n else []
+        for j in range(min(i, n)):
+            terms.append(md.CELLC(cids[j]) if d(st.booleans())
+                         else md.NOT(regions[j]))
+        expr = terms[0] if len(terms) == 1 else md.AND(*terms)
+        mat, rho = b.material()
+        b.deck['cells'].append(md.cell(cids[i], mat, rho, expr, imp={'n': 1},
+                                       u=u))
+    for sgn in (-1, 1):
+        tr = None
+        if d(st.integers(0, 3)) == 0:
+            tr = b.transform_ref(3.0, allow_none=False)
+        b.deck['cells'].append(
+            md.cell(b.new_cid(), 0, None, md.AND(md.S(-world), md.S(sgn * cut)),
+                    imp={'n': 1}, fill={'u': u, 'tr': tr}))
+    b.deck['cells'].append(md.cell(b.new_cid(), 0, None, md.S(world),
+                                   imp={'n': 0}))
+    b.labels.add('prune-setting')
     return {'deck': b.deck, 'labels': sorted(b.labels), 'tier': tier,
             'box': W * 1.15, 'pseed': draw(st.integers(0, 2 ** 31 - 1))}
